@@ -141,7 +141,7 @@ class Sys(e1.TimedSys):
             if m.subs[g]:
                 # the round goes to the endpoints subscribed 'at that time': the set at the call, or the
                 # set when the round's task starts (next iteration) - both are accepted
-                self.pending.append(("round", g, tuple(m.subs[g]), evs, {}))
+                self.pending.append(["round", g, tuple(m.subs[g]), evs, None, {}])
         elif act[0] == "bad":
             before = canon.roots_key(self.loop, self.roots())
             if act[1] == "no-endpoint":
@@ -195,6 +195,11 @@ class Sys(e1.TimedSys):
             got.append((dname, tuple(items)))
         self.last_got = got
         self.outcome = tuple(sorted((d, len(i)) for d, i in got))
+        # the round's task starts in the iteration after the call: the subscriber set at the end of the
+        # call's iteration is the second accepted reading of 'subscribed at that time'
+        for p in self.pending:
+            if p[0] == "round" and p[4] is None:
+                p[4] = tuple(m.subs[p[1]])
         if not self.loop.idle() or self.held:
             self.got_acc = getattr(self, "got_acc", []) + got
             return
@@ -213,11 +218,11 @@ class Sys(e1.TimedSys):
             if p[0] == "initial":
                 base.append((p[2], tuple(p[3])))
             else:
-                _, g, at_call, evs, _ = p
+                _, g, at_call, evs, at_start, _ = p
                 if not evs:
                     continue
                 a = [(e, tuple(evs)) for e in at_call]
-                b = [(e, tuple(evs)) for e in m.subs[g]]
+                b = [(e, tuple(evs)) for e in (at_start if at_start is not None else m.subs[g])]
                 alts = [x + a for x in alts] + ([x + b for x in alts] if sorted(a) != sorted(b) else [])
         for p in self.pending:
             # the value at the call itself
